@@ -4,6 +4,12 @@
 
   Only property theorems live here; helper lemmas are in `Fca/Lemmas/DecisionLattice.lean`.
   Numbers are exact rationals; "up to floating-point rounding" of the property is the harness' tolerance.
+
+  `nxt : Rat → Rat` is the map `thr ↦ right_from` of `_parse_dt_arrays_to_drules`, the left end of the right child's
+  closed interval: `np.nextafter(thr, inf)` in the code's default mode (`eps=None`), `thr + eps` (`nxtEps eps`) for an
+  explicit numeric `eps`.  The theorems hold for EVERY `nxt`; all they ask of it (inside the decidable `wellFormed`)
+  is `thr < nxt thr` and that no row value of the split feature lies strictly between `thr` and `nxt thr` — which is
+  true of every float64 value when `nxt` is the successor on the float64 grid.  There is no separation hypothesis.
 -/
 import Fca.Model.DecisionLattice
 import Fca.Lemmas.DecisionLattice
@@ -51,37 +57,39 @@ theorem dl_scale_pure (L : DLat) (c : Rat) :
 
 /-- Telescoping core: for every well-formed tree and every row, the node deltas (`dtargets`: root value,
     then child value − parent value) along the row's root-to-leaf path add up to the tree's prediction. -/
-theorem telescoping_core (t : Tree) (X : Rows) (m : Nat) (eps : Rat) (hwf : wellFormed t X m eps = true)
+theorem telescoping_core (t : Tree) (X : Rows) (m : Nat) (nxt : Rat → Rat) (hwf : wellFormed t X m nxt = true)
     (x : List Rat) :
     sumR ((pathFrom t x t.n 0).map (delta t)) = treePredict t x := by
-  obtain ⟨hlen, _, hnode⟩ := wf_parts hwf
-  exact telescope t X m eps hlen hnode x
+  obtain ⟨hlen, hnode⟩ := wf_parts hwf
+  exact telescope t X m nxt hlen hnode x
 
 /-- Path characterisation, one tracing step: at an internal node `i` of a well-formed tree, the extension of
-    the left (right) child's generator `(-∞, thr]` (`[thr+eps, ∞)`) inside ANY base set of context rows is exactly
+    the left (right) child's generator `(-∞, thr]` (`[nxt thr, ∞)`) inside ANY base set of context rows is exactly
     the rows of the base whose descent step at `i` goes to that child. -/
-theorem trace_step_exact (t : Tree) (X : Rows) (m : Nat) (eps : Rat) (hwf : wellFormed t X m eps = true)
+theorem trace_step_exact (t : Tree) (X : Rows) (m : Nat) (nxt : Rat → Rat) (hwf : wellFormed t X m nxt = true)
     (i : Nat) (l r f : Int) (thr : Rat)
     (h1 : t.left[i]? = some l) (h2 : t.right[i]? = some r) (h3 : t.feature[i]? = some f)
     (h4 : t.threshold[i]? = some thr) (hl : ¬ l = -1)
     (base : List Nat) (hbase : ∀ g ∈ base, g < nObjects X) :
-    extensionI X m [(f, directDescr t eps l.toNat thr)] (some base)
+    extensionI X m [(f, directDescr t nxt l.toNat thr)] (some base)
         = .ok (base.filter fun g => descend t (X.getD g []) 1 i == l.toNat) ∧
-    extensionI X m [(f, directDescr t eps r.toNat thr)] (some base)
+    extensionI X m [(f, directDescr t nxt r.toNat thr)] (some base)
         = .ok (base.filter fun g => descend t (X.getD g []) 1 i == r.toNat) :=
-  trace_step t X m eps hwf i l r f thr h1 h2 h3 h4 hl base hbase
+  trace_step t X m nxt hwf i l r f thr h1 h2 h3 h4 hl base hbase
 
 /-- The parser's `dtargets` are exactly the node deltas (root value, then child value − parent value, the parent
     being the one the left/right dictionaries recover) and `direct_parents` is `[None] + parents`. -/
-theorem parse_deltas_exact (t : Tree) (m : Nat) (eps : Rat) (r : Rules) (hn : 0 < t.n)
-    (h : parse t m eps = .ok r) :
+theorem parse_deltas_exact (t : Tree) (m : Nat) (nxt : Rat → Rat) (r : Rules) (hn : 0 < t.n)
+    (h : parse t m nxt = .ok r) :
     r.dtargets = (List.range t.n).map (delta t) ∧
     r.dparents = none :: ((List.range t.n).drop 1).map (parentOf t) :=
-  parse_dtargets_eq t m eps r hn h
+  parse_dtargets_eq t m nxt r hn h
 
 /-! ### the composed statement -/
 
-/-- FULL.  For every well-formed tree (`wellFormed`, decidable), every context, the decision lattice `L` the
+/-- FULL.  For every successor map `nxt`, every well-formed tree (`wellFormed`, decidable; its only demand on the
+    numbers is the grid hypothesis `thr < nxt thr ∧ ∀ row value v of the split feature, v ≤ thr ∨ nxt thr ≤ v`, met
+    by every float64 table when `nxt = nextafter`), every context, the decision lattice `L` the
     converter returns for it, and every iteration order of the set of generator records: `trace_context`
     terminates without error within `len(lattice)` iterations, its de-duplicated generator records are —
     for every row — exactly the nodes on the row's root-to-leaf path (`tracePathOK`), the decision stored under
@@ -91,15 +99,15 @@ theorem parse_deltas_exact (t : Tree) (m : Nat) (eps : Rat) (r : Rules) (hn : 0 
     `hconv` names the converter's result; that the converter does not raise on a fitted tree (no
     `AssertionError` from `generators_to_description`, unique top/bottom of the lattice) is not part of this
     statement — the run observes it on every explored tree. -/
-theorem dl_predict_eq_tree (t : Tree) (X : Rows) (m : Nat) (eps : Rat)
-    (hwf : wellFormed t X m eps = true) (L : DLat) (hconv : fromDecisionTree t X m eps = .ok L)
+theorem dl_predict_eq_tree (t : Tree) (X : Rows) (m : Nat) (nxt : Rat → Rat)
+    (hwf : wellFormed t X m nxt = true) (L : DLat) (hconv : fromDecisionTree t X m nxt = .ok L)
     (order : List GenRec → List GenRec) (horder : ∀ l, (order l).Perm l) :
     ∃ recs preds, traceContext L.lat X m order = .ok recs ∧
       tracePathOK t X recs = true ∧ traceKeysOK t L.decisions recs = true ∧
       predict L X m order = .ok preds ∧ preds.length = nObjects X ∧
       ∀ g < nObjects X, preds.getD g 0 = treePredict t (X.getD g []) := by
-  obtain ⟨recs, htrace, hpath, hkeys⟩ := tracePathOK_of_conv t X m eps L hwf hconv order horder
-  obtain ⟨preds, h1, h2, h3⟩ := predict_of_trace t X m eps hwf L order recs htrace hkeys hpath
+  obtain ⟨recs, htrace, hpath, hkeys⟩ := tracePathOK_of_conv t X m nxt L hwf hconv order horder
+  obtain ⟨preds, h1, h2, h3⟩ := predict_of_trace t X m nxt hwf L order recs htrace hkeys hpath
   exact ⟨recs, preds, htrace, hpath, hkeys, h1, h2, h3⟩
 
 /-- FULL, unconditional form.  For every well-formed tree that is *fitted* on the context (`fitted`, decidable:
@@ -108,28 +116,67 @@ theorem dl_predict_eq_tree (t : Tree) (X : Rows) (m : Nat) (eps : Rat)
     `generators_to_description`, every accumulated premise describes exactly the rows passing its node, the
     bottom completion and its assert go through, the concept list has a unique top and bottom), and the
     resulting decision lattice predicts, for every object of the context, exactly the tree's value. -/
-theorem dl_converted_predicts (t : Tree) (X : Rows) (m : Nat) (eps : Rat)
-    (hwf : wellFormed t X m eps = true) (hfit : fitted t X = true)
+theorem dl_converted_predicts (t : Tree) (X : Rows) (m : Nat) (nxt : Rat → Rat)
+    (hwf : wellFormed t X m nxt = true) (hfit : fitted t X = true)
     (order : List GenRec → List GenRec) (horder : ∀ l, (order l).Perm l) :
-    ∃ L preds, fromDecisionTree t X m eps = .ok L ∧ predict L X m order = .ok preds ∧
+    ∃ L preds, fromDecisionTree t X m nxt = .ok L ∧ predict L X m order = .ok preds ∧
       preds.length = nObjects X ∧ ∀ g < nObjects X, preds.getD g 0 = treePredict t (X.getD g []) := by
   obtain ⟨L, hL⟩ := conversion_ok hwf hfit
-  obtain ⟨_, preds, _, _, _, h1, h2, h3⟩ := dl_predict_eq_tree t X m eps hwf L hL order horder
+  obtain ⟨_, preds, _, _, _, h1, h2, h3⟩ := dl_predict_eq_tree t X m nxt hwf L hL order horder
   exact ⟨L, preds, hL, h1, h2, h3⟩
 
-/-! ### non-vacuity: a concrete fitted tree (5 nodes, depth 2) meets every hypothesis -/
+/-- FULL, the explicit-`eps` mode (`_parse_dtsklearn_to_direct_drules(dt, context, eps=<number>)`, the only mode
+    before the repair of D23): the instance `nxt thr = thr + eps` of `dl_predict_eq_tree`, under the former
+    hypothesis `wellFormedEps` — `0 < eps` and every threshold separates the row values of its feature by at least
+    `eps` (`v ≤ thr ∨ thr + eps ≤ v`).  Unlike the grid hypothesis of the default mode this one does restrict the
+    data: it fails for an object with `thr < v < thr + eps` and, in float arithmetic, wherever `thr + eps == thr`. -/
+theorem dl_predict_eq_tree_eps (t : Tree) (X : Rows) (m : Nat) (eps : Rat)
+    (hwf : wellFormedEps t X m eps = true) (L : DLat) (hconv : fromDecisionTree t X m (nxtEps eps) = .ok L)
+    (order : List GenRec → List GenRec) (horder : ∀ l, (order l).Perm l) :
+    ∃ recs preds, traceContext L.lat X m order = .ok recs ∧
+      tracePathOK t X recs = true ∧ traceKeysOK t L.decisions recs = true ∧
+      predict L X m order = .ok preds ∧ preds.length = nObjects X ∧
+      ∀ g < nObjects X, preds.getD g 0 = treePredict t (X.getD g []) :=
+  dl_predict_eq_tree t X m (nxtEps eps) (wellFormed_of_eps hwf) L hconv order horder
+
+/-! ### non-vacuity: a concrete fitted tree (5 nodes, depth 2) meets every hypothesis — in both modes -/
 
 private def exT : Tree :=
   { left := [1, 2, -1, -1, -1], right := [4, 3, -1, -1, -1], feature := [0, 0, -2, -2, -2],
     threshold := [5/2, 1/2, -2, -2, -2], value := [16/5, 2, 0, 8/3, 8] }
 private def exX : Rows := [[0, 1], [1, 1], [2, 0], [3, 1/2], [1, 2]]
+
+/-- default mode: the float64 successors of the two thresholds, `nextafter(2.5) = 2.5 + 2⁻⁵¹` and
+    `nextafter(0.5) = 0.5 + 2⁻⁵³` -/
+private def exNxt : Rat → Rat :=
+  nxtOfList [(5/2, 5/2 + 1 / 2251799813685248), (1/2, 1/2 + 1 / 9007199254740992)]
+
+/-- the rows of `exX` plus objects the tree was not grown on: one exactly on each threshold and one exactly one
+    float64 ulp above each threshold -/
+private def exXulp : Rows :=
+  exX ++ [[5/2, 0], [5/2 + 1 / 2251799813685248, 0], [1/2, 7], [1/2 + 1 / 9007199254740992, 7]]
+
+example : wellFormed exT exX 2 exNxt = true := by decide +kernel
+example : wellFormed exT exXulp 2 exNxt = true := by decide +kernel
+example : fitted exT exX = true := by decide +kernel
+example : fitted exT exXulp = true := by decide +kernel
+
+example : (match fromDecisionTree exT exXulp 2 exNxt with
+    | .ok L =>
+      (match traceContext L.lat exXulp 2 id with
+       | .ok recs => traceKeysOK exT L.decisions recs && tracePathOK exT exXulp recs && decide (recs.length = 5)
+       | .error _ => false)
+    | .error _ => false) = true := by decide +kernel
+
+/-- explicit-`eps` mode with the code's former default `eps = 1e-9` -/
 private def exEps : Rat := 1 / 1000000000
 
-example : wellFormed exT exX 2 exEps = true := by decide +kernel
+example : wellFormedEps exT exX 2 exEps = true := by decide +kernel
+example : wellFormed exT exX 2 (nxtEps exEps) = true := by decide +kernel
+/-- ... and the separation hypothesis of that mode really restricts the data: one ulp above a threshold fails it -/
+example : wellFormedEps exT exXulp 2 exEps = false := by decide +kernel
 
-example : fitted exT exX = true := by decide +kernel
-
-example : (match fromDecisionTree exT exX 2 exEps with
+example : (match fromDecisionTree exT exX 2 (nxtEps exEps) with
     | .ok L =>
       (match traceContext L.lat exX 2 id with
        | .ok recs => traceKeysOK exT L.decisions recs && tracePathOK exT exX recs && decide (recs.length = 5)
